@@ -58,6 +58,22 @@ def generate(tier, rng):
                     [dict(dims=["t"], values=[Fraction(5, 2)] * n), dict(dims=["t"], values=[near if i % 2 else Fraction(5, 2) for i in range(n)]), Fraction(5, 2)]][k % 3]
             cases.append(dict(stream="history", gname="unit", grid=grid, cls=cls, solver=solver, seq="".join(s), prms=prms,
                               drvs=[[rng.randint(1, 9) for _ in range(n)] for _ in range(3)], at="middle", n_pts=1, in_system=False))
+    # drivers that differ by very little (a finite-difference step of 2^-20) or are tiny throughout (a unit of 2^-40): the
+    # driver held at the moment of compute() counts, however close to the previous one it is
+    for cls, solver in (("idsm", None), ("sdsm", "manual"), ("sdsm", "lapack")):
+        for s in [q for q in seqs if "D" in q][:: (5 if tier == "quick" else 1)]:
+            k += 1
+            grid = c03.GRIDS[["unit", "uneven_p2"][k % 2]]
+            n = len(grid)
+            d0 = [Fraction(rng.randint(1, 9)) for _ in range(n)]
+            if k % 3 == 0:
+                u = Fraction(1, 2 ** 40)
+                drvs = [[v * u for v in d0], [3 * v * u for v in d0], [v * u * (1 + (i % 2)) for i, v in enumerate(d0)]]
+            else:
+                e1, e2 = 1 + Fraction(1, 2 ** 20), 1 - Fraction(1, 2 ** 21)
+                drvs = [d0, [v * e1 for v in d0], [v * (e2 if i % 2 else 1) for i, v in enumerate(d0)]]
+            cases.append(dict(stream="history", near_drv=True, gname=["unit", "uneven_p2"][k % 2], grid=grid, cls=cls, solver=solver, seq="".join(s),
+                              prms=[[9, 12, 20][k % 3]] * 3, drvs=[[str(v) for v in d] for d in drvs], at=["start", "middle", "end"][k % 3], n_pts=1, in_system=(k % 4 == 0)))
     # two-parameter library models: set_prms changing only the first, only the second, or both parameters
     # (values are not exactly representable: judged by the oracle against a fresh stock, bit for bit)
     two = [[8, 3], [12, 3], [12, 5], [8, 5]]
@@ -106,9 +122,9 @@ def _stock_case(case, prm, drv):
     return c
 
 
-def _obs3(st):
-    return dict(stock=observe_values(st.stock.values, True) if True else None, inflow=observe_values(st.inflow.values, True),
-                outflow=observe_values(st.outflow.values, True))
+def _obs3(st, snap=True):
+    return dict(stock=observe_values(st.stock.values, snap), inflow=observe_values(st.inflow.values, snap),
+                outflow=observe_values(st.outflow.values, snap))
 
 
 def _make_in_system(case, prm, drv):
@@ -133,7 +149,7 @@ def _make_in_system(case, prm, drv):
     if case["solver"] == "lapack":
         st.solver = "lapack"
     lm.set_prms(mean=sd.mk_param(dims, prm))
-    (st.inflow if case["cls"] == "idsm" else st.stock).values[...] = np.array([float(v) for v in drv])
+    (st.inflow if case["cls"] == "idsm" else st.stock).values[...] = np.array([float(Fraction(v)) for v in drv])
     return mfa, st
 
 
@@ -154,7 +170,7 @@ def run_impl(case):
             if ch == "D":
                 drv_i += 1
                 drv = case["drvs"][drv_i % 3]
-                (st.inflow if case["cls"] == "idsm" else st.stock).values[...] = np.array([float(v) for v in drv])
+                (st.inflow if case["cls"] == "idsm" else st.stock).values[...] = np.array([float(Fraction(v)) for v in drv])
                 steps.append(dict(op="D", drv=drv))
             elif ch == "P":
                 prm_i += 1
@@ -168,10 +184,11 @@ def run_impl(case):
                     mfa.compute()
                 else:
                     st.compute()
-                got = _obs3(st)
+                snap = not case.get("near_drv")        # (values a few 2^-20 apart, or of the order 2^-40, are observed as they are)
+                got = _obs3(st, snap)
                 fresh = sd.mk_stock(_stock_case(case, prm, drv))
                 fresh.compute()
-                steps.append(dict(op="C", got=got, fresh=_obs3(fresh), prm=prm, drv=drv))
+                steps.append(dict(op="C", got=got, fresh=_obs3(fresh, snap), prm=prm, drv=drv))
         except Exception as e:  # noqa
             steps.append(dict(op=ch, error=type(e).__name__ + ": " + str(e)[:100]))
             break
